@@ -114,6 +114,9 @@ impl PathBuf {
     pub uninterp spec fn utf8_ok(&self) -> bool;
     #[verifier::external_body]
     pub proof fn ax_parse(&self) ensures self.utf8_ok() ==> self.comps() == parse(self.pstr()) { }
+    // Path::to_string_lossy: the text itself when it is UTF-8 (ASSUMED[path-str]); otherwise unspecified here
+    #[verifier::external_body]
+    pub fn to_string_lossy(&self) -> (r: Str) ensures self.utf8_ok() ==> r@ == self.pstr() { unimplemented!() }
     #[verifier::external_body]
     pub fn to_str(&self) -> (r: Option<&Str>) ensures r is Some == self.utf8_ok(), r is Some ==> r->Some_0@ == self.pstr() { unimplemented!() }
     // R1: PathBuf::from(&str / String)
